@@ -32,12 +32,26 @@ def enclosing_ifs(pm, node):
 def kernel_roles(f):
     """(raster, other array parameters in signature order) of a per-cell kernel: the raster is the parameter read with
     two indices / asked for its shape; names and positions do not matter"""
+    def is_shape(e, p):
+        return isinstance(e, ast.Attribute) and e.attr == 'shape' and isinstance(e.value, ast.Name) and e.value.id == p
+
     def two_d(p):
-        return any((isinstance(x, ast.Subscript) and isinstance(x.value, ast.Name) and x.value.id == p and
-                    isinstance(x.slice, ast.Tuple) and len(x.slice.elts) == 2) or
-                   (isinstance(x, ast.Attribute) and x.attr == 'shape' and isinstance(x.value, ast.Name) and x.value.id == p)
-                   for x in ast.walk(f.node))
+        # read with two indices; or its shape used as a pair (unpacked into two names, its second extent asked for).  `v.shape[0]`
+        # alone is the length of a vector just as well.
+        for x in ast.walk(f.node):
+            if isinstance(x, ast.Subscript) and isinstance(x.value, ast.Name) and x.value.id == p and isinstance(x.slice, ast.Tuple) and \
+                    len(x.slice.elts) == 2:
+                return True
+            if isinstance(x, ast.Assign) and isinstance(x.targets[0], ast.Tuple) and len(x.targets[0].elts) == 2 and is_shape(x.value, p):
+                return True
+            if isinstance(x, ast.Subscript) and is_shape(x.value, p) and isinstance(x.slice, ast.Constant) and x.slice.value in (1, -1, -2):
+                return True
+        return False
     ras = [p for p in f.params if two_d(p)]
+    if len(ras) != 1:
+        # fall back: any use of `.shape` (the kernel never indexes it with two subscripts: a helper does)
+        ras2 = [p for p in f.params if any(is_shape(x, p) for x in ast.walk(f.node))]
+        ras = ras2 if len(ras2) == 1 else ras
     if len(ras) != 1:
         raise AnalysisIncomplete('%s: raster parameter not identified (%s)' % (f.qualname, ras))
     return ras[0], [p for p in f.params if p != ras[0]]
